@@ -19,7 +19,7 @@ O6  timers are not early: deadlines come from gettimeout's success edge
 """
 from .. import cdb, ir, report
 from ..ir import norm, show, root_var, subterms
-from ..dataflow import cond_atoms
+from ..dataflow import cond_atoms, Solver
 
 POLLIN, POLLOUT, POLLERR, POLLHUP = 1, 4, 8, 16
 READ, WRITE = 0, 1
@@ -683,6 +683,72 @@ def o8_capacity(prog, rep):
     return n
 
 
+GETTERS = ("events_immediate_get", "events_network_get", "events_timer_get")
+
+
+def o3_inflight(prog, rep):
+    """A record taken out of its queue is run before another is taken: in the dispatcher no getter is called while a record fetched
+    earlier has not yet been handed to the invoker, and no path leaves with one still held.  (While a callback runs, every
+    registration that has not been dispatched is still in its queue, where a cancel from inside the callback finds it; a record
+    held across a callback has been unlinked already -- the cancel then releases a record the loop goes on to invoke.)"""
+    u = prog.unit("events/events.c")
+    f = u.func("events_run_internal")
+    if f is None:
+        raise cdb.AnalysisBroken("anchor missing: events_run_internal")
+
+    def fetched(e):
+        """variable that receives a record from a getter at this element, or None"""
+        if e.is_assign and e.op == "=" and e.kid(1) is not None and e.kid(1).strip() is not None and e.kid(1).strip().cls == "CallExpr" and e.kid(1).strip().callee in GETTERS:
+            return norm(e.kid(0))
+        if e.cls == "CallExpr" and e.callee == "events_timer_get" and e.arg(0) is not None and norm(e.arg(0))[0] == "&":
+            return norm(e.arg(0))[1]
+        return None
+    bad = []
+
+    def tr(st, e):
+        v = fetched(e)
+        if v is not None:
+            held = frozenset(x for x in st if x != v)
+            if held:
+                bad.append((e, sorted(x[1] for x in held)))
+            return held | frozenset([v])
+        if e.cls == "CallExpr" and e.callee == "doevent" and e.arg(0) is not None:
+            return frozenset(x for x in st if x != norm(e.arg(0)))
+        if e.is_assign and e.op == "=" and norm(e.kid(0))[0] == "v" and norm(e.kid(1)) in st:
+            return frozenset(x for x in st if x != norm(e.kid(1))) | frozenset([norm(e.kid(0))])      # handed from one variable to another
+        return st
+
+    def rf(st, cond, kind):
+        if kind in (True, False):
+            for op, L, R, Le, _ in cond_atoms(cond, kind):
+                if op == "==" and R == ("c", 0) and L in st:
+                    st = frozenset(x for x in st if x != L)          # the getter answered "nothing"
+                k = Le.strip() if Le is not None else None
+                if k is not None and k.cls == "CallExpr" and k.callee == "events_timer_get" and op == "!=" and R == ("c", 0) and k.arg(0) is not None and norm(k.arg(0))[0] == "&":
+                    st = frozenset(x for x in st if x != norm(k.arg(0))[1])      # the getter failed: nothing was handed out
+        return st
+    sv = Solver(f, frozenset(), tr, rf).run()
+    n = len([e for e in f.all_elems() if fetched(e) is not None])
+    seen = set()
+    for e, held in bad:
+        if e.pos in seen:
+            continue
+        seen.add(e.pos)
+        rep.bad("O3-invoker", "events_run_internal: `%s`" % e.text[:40], e.where,
+                "another record is fetched while %s, fetched earlier, has not been run: for the duration of the callback that record is in no queue, "
+                "so a cancel of its registration from inside the callback releases a record the loop then invokes" % ", ".join(held), function=f.name, construct="inflight")
+    if not bad:
+        rep.ok("O3-invoker", "events_run_internal: a fetched record is run before the next is fetched", f.loc, "%d fetch sites" % n)
+    leaks = []
+    for r in f.returns():
+        st = sv.state_before(r)
+        if st:
+            leaks.append((r, sorted(x[1] for x in st)))
+    rep.check(not leaks, "O3-invoker", "events_run_internal: no record is still held when the dispatcher returns", (leaks[0][0].where if leaks else f.loc),
+              ("%s fetched and never run on a path to this return: the event is lost" % ", ".join(leaks[0][1])) if leaks else "", function=f.name, construct="held-at-return")
+    return n
+
+
 def o7_slotrange(prog, rep):
     """The socket table is indexed by descriptor number, and a descriptor has a record exactly when its number is below the
     table's size.  Relational (sa/poly.py) with the size as a ghost quantity that socketlist_getsize answers and a successful
@@ -772,9 +838,12 @@ def run(tier):
         o1_o2(prog, rep)
         o3(prog, rep)
         o4_o5(prog, rep)
+        if o3_inflight(prog, rep) < 3:
+            rep.defer_broken("O3: fewer than 3 fetch sites found in events_run_internal")
         o7_slotrange(prog, rep)
         from . import c14 as _c14
         _c14.destroy_then_fail_rule(prog, rep, only_files=("events/events_network.c", "events/events_timer.c", "events/events_immediate.c"))   # a refused registration leaves the existing one alone
+        _c14.realloc_idiom_rule(prog, rep, ("events/events_network.c",))      # a failed growth of the poll array leaves the array in place
         if o8_capacity(prog, rep) < 5:
             rep.defer_broken("O8-capacity: fewer than 5 obligations found in the function that adds a poll entry")
         o6(prog, rep)
